@@ -102,7 +102,7 @@ void gen_payload(uint64_t seed, size_t n, int flavour, std::vector<uint8_t>& out
   uint64_t s = seed;
   auto nx = [&]() { s = mix64(s + 0x9E3779B97F4A7C15ull); return s; };
   if (flavour == 0) { while (out.size() < n) { uint64_t v = nx(); for (int i = 0; i < 8 && out.size() < n; i++) out.push_back((uint8_t)(v >> (8 * i))); } return; }
-  if (flavour == 1) { while (out.size() < n) out.push_back((uint8_t)(0x20 + nx() % 95)); return; }
+  if (flavour == 1) { while (out.size() < n) { uint64_t v = nx(); out.push_back((v >> 40) % 16 == 0 ? (uint8_t)((v >> 8) % 33 == 32 ? 0x7f : (v >> 8) % 33) : (uint8_t)(0x20 + v % 95)); } return; }   // printable ASCII with the odd control character (tab, newline, NUL, DEL)
   // utf8: whole scalars while they fit, pad with ascii
   while (out.size() < n) {
     size_t room = n - out.size(); uint64_t v = nx(); unsigned k = (unsigned)(v % 4) + 1; if (k > room) k = (unsigned)room;
@@ -160,8 +160,8 @@ MV gen_mv(Rng& r, const GenProfile& p, unsigned depth) {
     }
     case 6: {
       v.kind = r.chance(1, 2) ? MK_BSTR : MK_TSTR; v.definite = false;
-      unsigned n = (unsigned)r.below(4);
-      for (unsigned i = 0; i < n; i++) { MV c; c.kind = v.kind; c.definite = true; gen_payload(r.next(), (size_t)gen_len(r, 40), v.kind == MK_BSTR ? 0 : 2, c.bytes); v.kids.push_back(std::move(c)); }
+      unsigned n = (unsigned)r.below(4); if (r.chance(1, 16)) { static const unsigned NC[] = {8, 15, 16, 17, 24, 33, 56, 64, 65, 120, 257}; n = NC[r.below(11)]; }   // chunk-rich now and then
+      for (unsigned i = 0; i < n; i++) { MV c; c.kind = v.kind; c.definite = true; gen_payload(r.next(), (size_t)gen_len(r, n > 3 ? 6 : 40), v.kind == MK_BSTR ? 0 : 2, c.bytes); v.kids.push_back(std::move(c)); }
       break;
     }
     case 7: case 8: {
@@ -180,6 +180,12 @@ MV gen_mv(Rng& r, const GenProfile& p, unsigned depth) {
     default: { static const uint64_t IANA[] = {0, 1, 2, 3, 4, 5, 16, 17, 18, 21, 22, 23, 24, 32, 33, 34, 35, 36, 37, 100, 258, 1004, 55799}; v.kind = MK_TAG; v.val = r.chance(1, 3) ? IANA[r.below(sizeof IANA / sizeof IANA[0])] : gen_u64(r); v.kids.push_back(gen_mv(r, p, depth + 1)); break; }
   }
   return v;
+}
+
+void gen_encode(Rng& r, const MV& v, std::vector<uint8_t>& out) {
+  if (!r.chance(1, 4)) { ref_encode(v, out); return; }
+  unsigned pm = (unsigned)(r.chance(1, 3) ? 1000 : r.range(100, 600));   // every head, or some of them
+  ref_encode_wire(v, [&]() -> unsigned { return r.below(1000) < pm ? 1 + (unsigned)r.below(4) : 0; }, out);
 }
 
 MV deep_mv(Rng& r, unsigned depth) {
